@@ -1,5 +1,5 @@
 """C05 - slices and strings: append, copy, slicing, iteration and conversion semantics."""
-import json, os, re, shutil, sys, collections
+import json, os, re, shutil, sys, time, collections
 import vlib
 from vlib import coq_list
 
@@ -117,24 +117,30 @@ def run(ck):
                   "Go 1.24 compiler and its native slice/string semantics (the oracle for Go behaviour)",
                   "stand-in packages props/C05/harness/{clite.go,stubs.go}: Memcpy/Memmove/Memset/Advance/AllocZ/AllocU on real memory with a block registry",
                   "hand-written models coq/theories/C05/{Model,StrModel}.v tied to the source text by the correspondence run"]
-    ck.assumptions = ["z_slice.go, z_string.go, utf8.go are compiled by the ordinary Go compiler (S2); the code llgo generates for them is not exercised here",
+    ck.assumptions = ["z_slice.go, z_string.go, utf8.go are compiled by the ordinary Go compiler (S2); the code llgo generates for them is exercised only by the small end-to-end probe props/C05/harness/e2e (when it finishes in time)",
                       "memcpy on partially overlapping ranges behaves as memmove (glibc x86-64; observed end to end); each such call is reported separately",
                       "len/cap/offset arithmetic is modelled on unbounded Z except nextslicecap (64-bit wrap modelled); append of more than 2^63 bytes is out of scope"]
     ck.coq_build("C05")
     ck.coq_props("LLGoV.C05.Props", "theories/C05/Props.v")
 
-    n = {"quick": 420, "thorough": 6000}[ck.tier]
-    fut = pool = None
+    n = {"quick": 300, "thorough": 4000}[ck.tier]
+    # (E) runs beside the rest in a daemon thread; in the quick tier it is dropped (never a
+    # verdict) when the machine is so loaded that it has not finished shortly after the rest
+    e2e_box, e2e_thr = [], None
     if os.environ.get("VERIF_C05_E2E", "1") != "0":
-        from concurrent.futures import ThreadPoolExecutor
-        pool = ThreadPoolExecutor(1)
-        fut = pool.submit(e2e_probe, ck)
+        import threading
+
+        def _e2e():
+            try:
+                e2e_box.append(e2e_probe(ck))
+            except Exception as e:
+                e2e_box.append([("log", "e2e probe failed to run: %r" % (e,)), ("cov", "skipped: %r" % (e,))])
+        e2e_thr = threading.Thread(target=_e2e, daemon=True)
+        e2e_thr.start()
     try:
         mod = make_module(ck)
     except Exception as e:          # an anchored file is missing or has no package clause
         ck.correspondence_broken("scratch-module", repr(e))
-        if pool:
-            pool.shutdown(wait=True)
         return ck.finish()
     out = os.path.join(ck.work, "c05.jsonl")
     rc, log = vlib.sh(["go", "test", "-vet=off", "-count=1", "-run", "TestVerif", "-timeout", "1500s", "./rt"], cwd=mod,
@@ -142,8 +148,6 @@ def run(ck):
                       timeout=1600)
     if rc != 0 or not os.path.exists(out):
         ck.correspondence_broken("harness", log[-2500:])
-        if pool:
-            pool.shutdown(wait=True)
         return ck.finish()
     recs = collections.defaultdict(list)
     for line in open(out):
@@ -155,42 +159,45 @@ def run(ck):
         ck.violation(v["key"], v.get("what", ""), v)
 
     total = 0
-
-    def compare(kind, header, terms, model, eqb, raw, shard=400):
-        nonlocal total
-        total += len(terms)
-        if not terms:
-            ck.correspondence_broken("C05/" + kind, "no cases produced")
-            return
-        bad = ck.coq_mismatches(header, terms, model, eqb, "c05_" + kind, shard=shard)
-        if bad:
-            ck.correspondence_broken("C05.Model/" + kind, {"n_mismatch": len(bad), "first": raw[bad[0]]})
-
+    timing = {}
     hdr = "From LLGoV Require Import C05.Model C05.StrModel.\nLocal Open Scope Z_scope.\n"
-    sl = recs["slice"]
-    compare("slice", hdr,
-            ["((%s, [%s]), (%s, %s))" % (z(r["es"]), "; ".join(op_term(o) for o in r.get("ops", [])), zll(r.get("obs")), zll(r.get("heap")))
-             for r in sl], "run_script", "script_eqb", sl, shard=40)
-    cp = recs["cap"]
-    compare("cap", hdr, ["((%s, %s), %s)" % (z(r["in"][0]), z(r["in"][1]), z(r["out"][0])) for r in cp],
-            "cap_case", "Z.eqb", cp)
-    s1 = recs["str1"]
-    compare("str1", hdr, ["(%s, %s)" % (zl(r["s"]), zll(r["outs"])) for r in s1], "str1_model", "zll_eqb", s1)
-    s2 = recs["str2"]
-    compare("str2", hdr, ["(((%s, %s), (%s, %s)), %s)" % (zl(r["s"]), zl(r["t"]), z(r["i"]), z(r["j"]), zll(r["outs"])) for r in s2],
-            "str2_model", "zll_eqb", s2)
-    en = recs["enc"]
-    compare("enc", hdr, ["(%s, %s)" % (z(r["i"]), zll(r["outs"])) for r in en], "enc_model", "zll_eqb", en)
-    fi = recs["fromint"]
-    compare("fromint", hdr, ["(%s, %s)" % (z(r["i"]), zll(r["outs"])) for r in fi], "fromint_model", "zll_eqb", fi)
-    fr = recs["frunes"]
-    compare("frunes", hdr, ["(%s, %s)" % (zl(r["s"]), zll(r["outs"])) for r in fr], "frunes_model", "zll_eqb", fr)
+    sl, cp, s1, s2 = recs["slice"], recs["cap"], recs["str1"], recs["str2"]
+    en, fi, fr = recs["enc"], recs["fromint"], recs["frunes"]
+    jobs = [
+        ("slice", ["((%s, [%s]), (%s, %s))" % (z(r["es"]), "; ".join(op_term(o) for o in r.get("ops", [])), zll(r.get("obs")), zll(r.get("heap")))
+                   for r in sl], "run_script", "script_eqb", sl, 60),
+        ("cap", ["((%s, %s), %s)" % (z(r["in"][0]), z(r["in"][1]), z(r["out"][0])) for r in cp], "cap_case", "Z.eqb", cp, 500),
+        ("str1", ["(%s, %s)" % (zl(r["s"]), zll(r["outs"])) for r in s1], "str1_model", "zll_eqb", s1, 500),
+        ("str2", ["(((%s, %s), (%s, %s)), %s)" % (zl(r["s"]), zl(r["t"]), z(r["i"]), z(r["j"]), zll(r["outs"])) for r in s2],
+         "str2_model", "zll_eqb", s2, 500),
+        ("enc", ["(%s, %s)" % (z(r["i"]), zll(r["outs"])) for r in en], "enc_model", "zll_eqb", en, 1000),
+        ("fromint", ["(%s, %s)" % (z(r["i"]), zll(r["outs"])) for r in fi], "fromint_model", "zll_eqb", fi, 1000),
+        ("frunes", ["(%s, %s)" % (zl(r["s"]), zll(r["outs"])) for r in fr], "frunes_model", "zll_eqb", fr, 1000),
+    ]
 
-    if fut is not None:
-        try:
-            acts = fut.result(timeout=1500)
-        except Exception as e:
-            acts = [("log", "e2e probe failed to run: %r" % (e,)), ("cov", "skipped: %r" % (e,))]
+    def compare(job):
+        kind, terms, model, eqb, raw, shard = job
+        if not terms:
+            return kind, 0, None, 0.0
+        t0 = time.time()
+        bad = ck.coq_mismatches(hdr, terms, model, eqb, "c05_" + kind, shard=shard)
+        return kind, len(terms), bad, round(time.time() - t0, 1)
+
+    from concurrent.futures import ThreadPoolExecutor as TPE
+    with TPE(len(jobs) if ck.tier == "quick" else 2) as ex:   # thorough: at most 2 x 16 coqc at a time
+        results = list(ex.map(compare, jobs))
+    for (kind, nterms, bad, dt), job in zip(results, jobs):
+        total += nterms
+        timing[kind] = (nterms, dt)
+        if bad is None:
+            ck.correspondence_broken("C05/" + kind, "no cases produced")
+        elif bad:
+            ck.correspondence_broken("C05.Model/" + kind, {"n_mismatch": len(bad), "first": job[4][bad[0]]})
+
+    if e2e_thr is not None:
+        e2e_thr.join(1500 if ck.tier == "thorough" else 25)
+        acts = e2e_box[0] if e2e_box else [("log", "e2e probe not finished in time (machine loaded): dropped from this run"),
+                                            ("cov", "dropped: not finished in time")]
         for kind, a in acts:
             if kind == "log":
                 ck.log(a)
@@ -202,7 +209,6 @@ def run(ck):
                 ck.violation(*a)
             elif kind == "count":
                 total += a
-        pool.shutdown(wait=False)
 
     classes = collections.Counter()
     nops = 0
@@ -231,6 +237,7 @@ def run(ck):
     if s2:
         r = s2[len(s2) // 2]
         samples.append({"str2": {k: r[k] for k in ("s", "t", "i", "j", "outs")}})
+    ck.cov["timing_s"] = timing
     ck.add_cov(evaluations=total, nontrivial=distinct, samples=samples, classes=dict(classes))
     ck.cov["rule"] = ("slices: random scripts (make/set/append values/append slice/copy/reslice/clear, 4 variables, element sizes 0,1,2,3,8,24, "
                       "aliasing idioms insert/delete/overlapping copy, lengths around the 256 growth threshold, out-of-range indexes) run on llgo's "
